@@ -531,7 +531,8 @@ def install_auc(sess, max_pairs=6000):
         a.update(dict(zip(names, args[1:])))
         a.update(kwargs)
         lower, upper, xa, ya = float(a["lower"]), float(a["upper"]), a["x_axis"], a["y_axis"]
-        if len(s.pos) == 0 or len(s.neg) == 0 or not finite_arr(s.pos) or not finite_arr(s.neg):
+        # a class is non-empty when it has samples, scored or easy: a class of easy samples only still ranks beyond every scored sample
+        if len(s.pos) + int(s.nb_easy_pos) == 0 or len(s.neg) + int(s.nb_easy_neg) == 0 or len(s.pos) + len(s.neg) == 0 or not finite_arr(s.pos) or not finite_arr(s.neg):
             sess.skip("M-auc", "empty class or non-finite")
             return
         if not (0.0 <= lower <= upper <= 1.0):
